@@ -474,7 +474,7 @@ def judge (f out : List String) : Verdict :=
           | none => false
         let specParts : List (String × Bool) := [
           ("value after Parse(Marshal x)", valueOk crt),
-          ("value after Read(Write x)", valueOk crd),
+          ("value after Read(Write x) on a path that held a longer document", valueOk crd),
           ("value after Parse(model-printed JSON)", valueOk cfl),
           ("features report the same sequence", !linkedB x || gsrt == gsx),
           ("feature count", (gsrt.splitOn ",").length == (gsx.splitOn ",").length),
@@ -509,7 +509,7 @@ def judge (f out : List String) : Verdict :=
       else { corr := true, judge := none, cls := pre ++ "skip:" ++ why, detail := "" }
     match out with
     | ["ok", st] => skipOr ("parser-" ++ st.drop 1)          -- the parser panicked on the generated file
-    | ["ok", "ok", cp, direct, jtext, crt, via, gsp, gsrt, viaFile, viaPipe] =>
+    | ["ok", "ok", cp, direct, jtext, crt, via, gsp, gsrt, viaFile, viaPipe, viaWrite] =>
       if cp.startsWith "!" then skipOr "parser-output-unprintable"
       else if hasInvalidTok cp then
         -- NAMED EXCLUSION: a Go string that is not valid UTF-8 (e.g. a Latin-1 byte passed through by the
@@ -526,7 +526,7 @@ def judge (f out : List String) : Verdict :=
         let cRt := canon (polyjsonParse mJ)
         let corrParts : List (String × Bool) := [
           ("marshal", sameJ (jsonOf jtext) mJ), ("parse", crt == cRt),
-          ("build", direct == via && direct == viaFile && direct == viaPipe)]
+          ("build", direct == via && direct == viaFile && direct == viaPipe && direct == viaWrite)]
         let badCorr := corrParts.filter (!·.2)
         -- from here on every step ran on a value the direct writer accepted: a step that failed
         -- ("!panic" / "!err") differs from `direct` and fails the property
@@ -534,6 +534,7 @@ def judge (f out : List String) : Verdict :=
           ("same text via Marshal/Parse", direct == via),
           ("same text via Write/Read", direct == viaFile),
           ("same text via MarshalIndent/Unmarshal", direct == viaPipe),
+          ("the format's Write over a longer file leaves exactly Build's text", direct == viaWrite),
           ("value", match uncanon crt with
                     | some r => Spec.Lossless.sameSeq r x && Spec.Lossless.relinkedOK r
                     | none => false),
